@@ -124,6 +124,22 @@ fn inspect(acc: &mut Acc, case: &Case, buf: &[u8], sub: &str) {
     probe!(acc, case, &format!("Display/Debug(Message){sub}"), {
         let _ = format!("{msg} {msg:?}");
     });
+    // format specifications: precision, width, fill / alignment, sign, alternate and zero flags are
+    // handed to the library's fmt implementations as well
+    if sub.is_empty() {
+    probe!(acc, case, &format!("Display/Debug with format specifications{sub}"), {
+        let _ = format!("{msg:.0} {msg:.1} {msg:.3} {msg:.16} {msg:.64} {msg:.1000}");
+        let _ = format!("{msg:5} {msg:>80} {msg:<80} {msg:^300} {msg:*^17.9} {msg:#} {msg:#?} {msg:+} {msg:010}");
+        let _ = format!("{:.16} {:>40.2} {:#}", msg.get_type(), msg.get_type(), msg.get_type());
+        let _ = format!("{:.5} {:>40} {:#?}", msg.transaction_id(), msg.transaction_id(), msg.transaction_id());
+        for a in msg.iter_attributes().take(8) {
+            let _ = format!("{a:.0} {a:.1} {a:.2} {a:.3} {a:.4} {a:.5} {a:.7} {a:.8} {a:.16} {a:.64} {a:.800}");
+            let _ = format!("{a:3} {a:>60} {a:-<60} {a:^9.4} {a:#} {a:#?} {a:+} {a:07}");
+            let t = a.get_type();
+            let _ = format!("{t:.3} {t:>30} {t:#} {t:#?}");
+        }
+    });
+    }
     // formatting into a sink that refuses data after `cap` bytes (a fixed-size log line, a full disk):
     // fmt must hand the error back, never panic
     probe!(acc, case, &format!("Display/Debug into a bounded sink{sub}"), {
@@ -222,6 +238,12 @@ pub fn judge(case: &Case, acc: &mut Acc) {
             });
             probe!(acc, case, "Display(RawAttribute)", {
                 let _ = format!("{raw} {raw:?}");
+                if buf.len() % 2 == 0 || buf.len() < 24 {
+                    let _ = format!("{raw:.0} {raw:.1} {raw:.2} {raw:.3} {raw:.5} {raw:.8} {raw:.16} {raw:.800} {raw:>70} {raw:#} {raw:#?}");
+                    if let Ok(t) = real::from_raw_typed(k, &raw) {
+                        let _ = t.display_spec();
+                    }
+                }
             });
             probe!(acc, case, &format!("from_raw::<{}> at odd addresses", k.name()), {
                 let _ = real::differs_at_residue(buf, &true, |b| {
